@@ -4,7 +4,14 @@ proof side : lean/Heph/Props/C01.lean — `check_sound : checkProgram lt p = .ok
              (the declarative judgement of lean/Heph/Spec/Typing.lean over `Asg`), `isSubD_sound`, the model of
              the fold of `gen_conditional` with `condType_upper_partial` / `condType_counterexample` /
              `condTypeFixed_upper`, the model of the filter of `gen_variable` with `genVariable_sound` /
-             `genVariable_assignable` / `genVariable_refines_*`.
+             `genVariable_assignable` / `genVariable_refines_*`; further decision points of the generator
+             (lean/Heph/Model/GenFuncRef, GenNew, GenMatch, GenSig.lean): `sigtypeCompatible_sound/assignable`,
+             `funcCallRef_sound/candidates/refines_*`, `funcRef_sound`, `subclass_sound/prefers_own/refines_*`,
+             `newFromClass_expected`, `genNew_new`, `genNew_map_is_instantiation`, `genNew_expected_is_sink`,
+             `matchingClassDecls_sound`, `firstCompatible_sound/none`, `matchedOK_sound`, `overrideSig_arity`,
+             `overrideComponent_spec/plain`, `restrictMap_spec`, `callArgsExpected_plain/sound`; and
+             lean/Heph/Props/C01Gen.lean (`genNew_expected_substS`, world of C07's specification; built and
+             audited by this check through `audit_extra`).
 tie to code: every program the real generator produces for (language x switch setting x seed x max_depth) is
              exported by value and sent to the verified checker (op `check.wt`).  The quantifier over seeds is
              covered only on the explored programs.  A rejected program is a candidate violation: replay =
@@ -16,6 +23,22 @@ tie to code: every program the real generator produces for (language x switch se
              type, flags, outcome; refinement of `genVariableCandidates`, a differing call is judged by the
              specification-side decider `check.subd`).  The witness of `condType_counterexample` is replayed on the
              real `gen_conditional` (`fold_witness`).
+             The other decision points (`check_genpoints`; recorded by c01_plugin with per-program caps GP_LIMITS,
+             inputs / random draws / outcome by value, one driver request per program and kind):
+             exact comparison  - `_is_sigtype_compatible` (check.sigcompat), `_get_matching_class_decls` given the
+                                 unifier maps (check.classdecls), `_gen_matching_class` (check.firstcompat), `gen_new`:
+                                 node kind, node type and the expected types handed to `generate_expr` given the class
+                                 drawn and the random instantiations (check.gennew), `_gen_func_from_existing`: the
+                                 signature handed to `gen_func_decl` (check.overridesig), `_gen_func_call`: the expected
+                                 argument types under the final `params_map` (check.callargs);
+             refinement        - `_gen_func_call_ref` (check.funcallref), `_gen_func_ref` (check.funcref),
+                                 `_get_subclass` (check.subclass), `_get_matching_class` (its draw is one of the class
+                                 declarations `_get_matching_class_decls` returned);
+             returned triples  - every (attribute, maps) returned by `_get_matching_objects`,
+                                 `_get_matching_function_declarations`, `_get_matching_class` satisfies `matchedOK`
+                                 (check.sigcompat) under the maps as returned, or, when a random use-site-variance
+                                 instantiation binds a type parameter to a projection, the checker's read rule
+                                 (check.readfits = `readType` + specification-side decider); neither -> failing input.
 budget     : one program costs 0.2-60 CPU seconds (deep copies in the generator); programs are capped by CPU time
              (not wall-clock time) so that the set of cut-off programs does not depend on the load of the machine.
 """
@@ -389,7 +412,7 @@ def _gp_batches(plugin_outputs, kind, op, extra=None):
                 rq["extra"] = extra
             rqs.append(rq)
             owner.append((sp, pl, calls))
-    ans = run_driver_sharded(rqs) if rqs else []
+    ans = run_driver_sharded(rqs, shards=12) if rqs else []
     for (sp, pl, calls), a in zip(owner, ans):
         if "error" in a:
             raise common.HarnessError("driver error on %s of %s: %s" % (op, replay_key(sp), a["error"][:300]))
@@ -778,7 +801,8 @@ def check(run):
                        "max_depth), exported by value and judged by the verified checker (check.wt); non-trivial = more "
                        "than 50 AST nodes; distinct by replay tuple; plus ill-typed mutants of accepted programs "
                        "(negative controls), the recorded folds of gen_conditional against the models condType / "
-                       "condTypeFixed and the recorded calls of gen_variable against genVariableCandidates")
+                       "condTypeFixed, the recorded calls of gen_variable against genVariableCandidates and the recorded "
+                       "calls of ten further decision points (check_genpoints) against the models of Model/Gen*.lean")
     # corpus first
     cdir = os.path.join(common.VERIF, "corpus")
     corpus = []
